@@ -233,6 +233,17 @@ CHECKS['C13'] = dict(
     technique='generator-with-oracle exploration of line numbers (Lean ghost-origin proof pending the block-parser model)',
     ref='DESIGN.md section 5, C13')
 
+CHECKS['C09'] = dict(
+    category='exploration',
+    text='Interim level: for documents from the tree generator (restricted to the property domain) and all 652 spec examples, '
+         'under normalize_whitespace False/True: the text rendered back by MarkdownRenderer must give the same HtmlRenderer '
+         'output and the same link definitions, and rendering the rendered text again must reproduce it byte for byte. The '
+         'spec examples that fail today are listed individually as known findings. Lean theorems over the Markdown renderer '
+         'and parser models are the planned upgrade.',
+    note='Trusted: HtmlRenderer output + Document.footnotes as meaning. Interim level, see DESIGN.md C09.',
+    technique='round-trip exploration on generated documents and the spec corpus (Lean theorems pending the Markdown renderer/parser models)',
+    ref='DESIGN.md section 5, C09')
+
 NOT_YET = {}
 
 
